@@ -47,6 +47,7 @@ type driver struct {
 	defs  []string
 	thor  bool
 	hangs int
+	aborted bool
 	stats map[string]int
 }
 
@@ -212,19 +213,24 @@ func (d *driver) oracle(sc *fx.Scenario, f fx.Fault, obs *fx.Obs, bi *baseInfo) 
 }
 
 // maxHangs bounds the cost of a library that hangs: every hanging run costs the whole
-// watchdog, so after this many expiries the faults that rely on the library being woken
-// up (silent peer, blocking write) are no longer enumerated; the skipped runs are counted
-// in the histogram ("skipped:after-repeated-hangs") and the hangs themselves are reported.
+// watchdog, so after this many expiries (or at once when a call keeps spinning after its
+// connection was shut down) nothing more is enumerated; the skipped runs are counted in the
+// histogram ("skipped:after-repeated-hangs") and the hangs themselves are reported.
 const maxHangs = 3
 
 func (d *driver) one(sc *fx.Scenario, f fx.Fault, bi *baseInfo) fx.Obs {
-	if d.hangs >= maxHangs && (f.Kind == "silent" || f.Kind == "wblock") {
+	if d.aborted || d.hangs >= maxHangs {
+		// every further run would cost the whole watchdog (and, next to a spinning call,
+		// measure nothing): the hangs recorded so far are the finding
 		d.res.Histogram["skipped:after-repeated-hangs"]++
-		return fx.Obs{}
+		return fx.Obs{TimedOut: true}
 	}
 	obs := fx.Run(sc, f, d.mat)
 	if obs.TimedOut {
 		d.hangs++
+	}
+	if obs.Stuck {
+		d.aborted = true
 	}
 	if os.Getenv("C04_DEBUG") != "" {
 		fmt.Fprintf(os.Stderr, "%s %+v -> err=%v %q state=%d fired=%v/%d timedout=%v panic=%q ops=%d/%d %v\n", sc.Name, f, obs.HasErr, obs.Err, obs.State, obs.Fired, obs.FiredModel, obs.TimedOut, obs.Panic, obs.RawOps, obs.ModelOps, obs.Elapsed)
